@@ -130,8 +130,18 @@ let rt_request_of s : rt_request * bool =
     (QMetadata (names_of (String.sub v 0 i), String.sub v (i + 1) (String.length v - i - 1) = "1"), false)
   | _ -> (QOne (one_request s), false)
 
-let fc_of s : fc_answer option =
-  if s = "-" then None else let (e, n) = split2 '/' s in Some { fc_err = z_of_hex e; fc_node = z_of_hex n }
+(* how the fake answers find-coordinator for the request's key: "-" = no exchange expected /
+   it fails; "<err>/<node>,<err>/<node>" = the answers for key type 0 (group) and 1 (transaction) *)
+let fc_of s : coord_fn =
+  if s = "-" then (fun _ _ -> None) else
+  match split ',' s with
+  | [g; t] ->
+    let ans x = let (e, n) = split2 '/' x in Some { fc_err = z_of_hex e; fc_node = z_of_hex n } in
+    let ag = ans g and at = ans t in
+    (fun kt _ -> if int_of_z kt = 0 then ag else at)
+  | _ -> failwith "fc"
+
+let no_coord : coord_fn = fun _ _ -> None
 
 let pool_of_md (m : metadata) : pool = update pool_init (Some m) None
 
@@ -144,14 +154,20 @@ let ranges_of s : (z * (z * z)) list =
 let vers_of s : (z * (z * (z * z)) list) list =
   List.map (fun e -> let (b, t) = split2 ':' e in (z_of_hex b, ranges_of t)) (split ';' s)
 
-(* the journal the model predicts for a round trip *)
-let e2e_trace boot md vers client req fc : string =
-  let p = pool_of_md md in
+(* the journal the model predicts for a round trip on pool [p] *)
+let trace_on (p : pool) boot vers client req (fc : coord_fn) : string =
   let (q, splitter) = rt_request_of req in
   let table b = try List.assoc b (List.map (fun (k, t) -> (hex_of_z k, t)) vers) with Not_found -> [] in
-  let entry (t, api) =
-    let b = (match t with TBroker i -> hex_of_z i | TControl -> boot) in
-    "b" ^ b ^ ":" ^ hex_of_z api ^ ":" ^ hex_of_z (conn_version (negotiate client (table b)) api) in
+  let ver b api = conn_version (negotiate client (table b)) api in
+  (* KeyType is not on the wire at find-coordinator v0: the broker sees a group lookup *)
+  let fcver = ver boot k_FindCoordinator in
+  let fc = coord_at_version fcver fc in
+  let entry = function
+    | WReq (t, api) ->
+      let b = (match t with TBroker i -> hex_of_z i | TControl -> boot) in
+      "b" ^ b ^ ":" ^ hex_of_z api ^ ":" ^ hex_of_z (ver b api)
+    | WFind (kt, _) ->
+      "b" ^ boot ^ ":" ^ hex_of_z k_FindCoordinator ^ ":" ^ hex_of_z fcver ^ ":" ^ hex_of_z (ktype_at_version fcver kt) in
   match round_trip p q fc with
   | RTBlocked -> "blocked"
   | RTCacheErr _ -> "err"
@@ -167,6 +183,23 @@ let e2e_trace boot md vers client req fc : string =
       else (match l with [Sent _] -> "ok" | _ -> "err") in
     let entries = if splitter then List.sort compare entries else entries in
     dot (String.concat "," entries) ^ "/" ^ status
+
+let e2e_trace boot md vers client req fc : string = trace_on (pool_of_md md) boot vers client req fc
+
+(* the refresh loop through a list of faults ("t" timed out, "i" i/o error, "d" no connection),
+   then an answered refresh with [md1]; the request is routed on the pool that results *)
+let recovery_trace boot md0 md1 faults vers client req fc : string =
+  let s0 = { d_phase = DWaiting; d_pool = pool_of_md md0; d_ctx_err = None } in
+  let turn f = refresh_turn false (match f with
+      | "t" -> FFailed e_deadline
+      | "i" -> FFailed (n_of_int 9)
+      | "d" -> FNoConn (n_of_int 9)
+      | _ -> failwith "fault") in
+  let labels = List.concat_map turn (if faults = "." then [] else split ',' faults)
+               @ refresh_turn false (FAnswered md1) in
+  match discover_run s0 labels with
+  | Some s when s.d_phase = DWaiting -> "live:" ^ trace_on s.d_pool boot vers client req fc
+  | _ -> "frozen"
 
 let enc_state (p : pool) =
   let md = (match p.ps_meta with None -> "-" | Some m -> enc_md m) in
@@ -206,9 +239,9 @@ let eval (op : string) (a : string list) : string =
     String.concat "+" res
   | "send", [m; req] ->
     let p = pool_of_md (md_of m) in
-    (match send_request p.ps_layout p.ps_conns (one_request req) None with
-     | Sent [(TBroker i, _)] -> "dial:b" ^ hex_of_z i
-     | Sent [(TControl, _)] -> "dial:c"
+    (match send_request p.ps_layout p.ps_conns (one_request req) no_coord with
+     | Sent [WReq (TBroker i, _)] -> "dial:b" ^ hex_of_z i
+     | Sent [WReq (TControl, _)] -> "dial:c"
      | Sent _ -> "sent?"
      | Rejected (_, RejRoute e) -> "rej:" ^ enc_err e
      | Rejected (_, RejBrokerNotAvailable) -> "unavail"
@@ -220,6 +253,8 @@ let eval (op : string) (a : string list) : string =
   | "e2elag", [boot; m0; m1; vers; client; req; fc] ->
     e2e_trace boot (md_of m0) (vers_of vers) (ranges_of client) req (fc_of fc) ^ "#" ^
     e2e_trace boot (md_of m1) (vers_of vers) (ranges_of client) req (fc_of fc)
+  | "e2erec", [boot; m0; m1; faults; vers; client; req; fc] ->
+    recovery_trace boot (md_of m0) (md_of m1) faults (vers_of vers) (ranges_of client) req (fc_of fc)
   | "e2efail", _ -> "no-failure-expected"
   | _ -> "BADCASE"
 
